@@ -115,6 +115,11 @@ impl World {
                 if !owner.is_wildcard() || !qname.strictly_below(&owner.parent()) {
                     continue;
                 }
+                // occluded wildcards below a cut are not zone data (the real signer signs them
+                // anyway — logged by C10/C07 — but no correctly signed zone offers such an RRSIG)
+                if z.rz.cut_on_path(owner).is_some() {
+                    continue;
+                }
                 for t in types.keys() {
                     if *t == qtype || (*t == rz::T_CNAME && qtype != rz::T_CNAME) {
                         v.push((zi, Claim::Wildcard { source: owner.clone(), rtype: *t }));
@@ -641,6 +646,10 @@ fn completeness(world: &World, zi: usize, rt: &tokio::runtime::Runtime, l: &mut 
                 ":last-nsec-covers"
             } else if star {
                 ":star"
+            } else if m.answers.iter().any(|r| r.record_type() != RecordType::RRSIG && r.name != vzone::hname(&qn)) {
+                // the answer is a CNAME chain that continues (possibly through another wildcard):
+                // the validator reads every RRSIG of the answer section as an expansion of the QUERY name
+                ":chained-answer"
             } else {
                 ":plain"
             }
